@@ -8,6 +8,7 @@ import (
 
 	"pgregory.net/rapid"
 
+	"github.com/tdakkota/docker-logql/verifharness/canon"
 	"github.com/tdakkota/docker-logql/verifharness/datagen"
 	"github.com/tdakkota/docker-logql/verifharness/evid"
 	"github.com/tdakkota/docker-logql/verifharness/gen"
@@ -60,9 +61,54 @@ func c10Identical(c MetricCase) (r evid.Result) {
 	return r
 }
 
+// c10Near: records whose lines differ in one label value only, by as little as two values can
+// differ (integers next to each other beyond 2^53, a trailing blank, letter case, a leading
+// zero, composed and decomposed accents): different label sets, so one series per value, each
+// counting its own records.
+func c10Near(c MetricCase) (r evid.Result) {
+	recs := sortedRecs(c.Recs)
+	r.Class(true, "near-values")
+	r.NonTrivial = len(c.Near) >= 2
+	for i := 0; i < 3; i++ {
+		got, _, v, _ := runMetric(recs, c.Caps, false, c.Text, c.Params)
+		r.Evals++
+		if v != nil {
+			v.Sig = "C10/" + v.Sig
+			r.Violation = v
+			return r
+		}
+		want := map[string]int{}
+		for k, val := range c.NearVals {
+			want[canon.LabelKey(map[string]string{"v": val})] = c.Near[k]
+		}
+		for k, pts := range got {
+			n, ok := want[k]
+			if !ok {
+				r.Violation = evid.Viol("C10/near-values-merged", "%s over lines with v = %q (%v records each): series {%s}, which no record has", c.Text, c.NearVals, c.Near, k)
+				return r
+			}
+			for _, val := range pts {
+				if int(val+0.5) != n {
+					r.Violation = evid.Viol("C10/near-values-merged", "%s over lines with v = %q (%v records each): series {%s} = %v, want %d", c.Text, c.NearVals, c.Near, k, val, n)
+					return r
+				}
+			}
+			delete(want, k)
+		}
+		if len(want) > 0 {
+			r.Violation = evid.Viol("C10/near-values-merged", "%s over lines with v = %q (%v records each): %d of the series are missing (got %v)", c.Text, c.NearVals, c.Near, len(want), got)
+			return r
+		}
+	}
+	return r
+}
+
 func c10Check(c MetricCase) (r evid.Result) {
 	if c.Identical > 0 {
 		return c10Identical(c)
+	}
+	if len(c.Near) > 0 {
+		return c10Near(c)
 	}
 	recs := sortedRecs(c.Recs)
 	ev := model.NewEvaluator(recs)
@@ -146,6 +192,47 @@ func c10Check(c MetricCase) (r evid.Result) {
 
 func c10Gen(t *rapid.T) MetricCase {
 	var c MetricCase
+	if rapid.IntRange(0, 11).Draw(t, "near-values") == 0 {
+		set := rapid.SampledFrom([]struct {
+			json bool
+			vals []string // as written in the line; NearVals is what the label holds
+			want []string
+		}{
+			{true, []string{"9007199254740992", "9007199254740993"}, []string{"9007199254740992", "9007199254740993"}},
+			{true, []string{"1234567890123456789", "1234567890123456790", "1234567890123456791"}, []string{"1234567890123456789", "1234567890123456790", "1234567890123456791"}},
+			{true, []string{"-9007199254740993", "-9007199254740992"}, []string{"-9007199254740993", "-9007199254740992"}},
+			{true, []string{`"a"`, `"a "`, `"A"`}, []string{"a", "a ", "A"}},
+			{true, []string{`"1"`, `"01"`, `"1.0"`}, []string{"1", "01", "1.0"}},
+			{true, []string{`"\u00e9"`, `"e\u0301"`}, []string{"\u00e9", "e\u0301"}},
+			{false, []string{"1", "01", "1.0", "+1"}, []string{"1", "01", "1.0", "+1"}},
+			{false, []string{"a", "A"}, []string{"a", "A"}},
+			{false, []string{"9007199254740992", "9007199254740993"}, []string{"9007199254740992", "9007199254740993"}},
+		}).Draw(t, "near-set")
+		stage := "logfmt"
+		if set.json {
+			stage = "json"
+		}
+		ts := datagen.BaseTS
+		for k, v := range set.vals {
+			n := rapid.IntRange(1, 6).Draw(t, "near-n")
+			c.Near = append(c.Near, n)
+			line := "v=" + v + " w=same"
+			if set.json {
+				line = `{"v":` + v + `,"w":"same"}`
+			}
+			for i := 0; i < n; i++ {
+				ts += datagen.Tick
+				c.Recs = append(c.Recs, model.Rec{TS: ts, Line: gen.BS(line), Labels: map[string]string{"app": "web"}})
+			}
+			_ = k
+		}
+		c.NearVals = set.want
+		c.Text = fmt.Sprintf(rapid.SampledFrom([]string{"sum by (v) (count_over_time({} | %s [60y]))", "sum by (v) (count_over_time({} | %s | drop msg [60y]))", "sum without (msg, app, w) (count_over_time({} | %s [60y]))"}).Draw(t, "near-query"), stage)
+		at := ts + datagen.Tick
+		c.Params = model.Params{Start: at, End: at, Step: 0, Limit: -1}
+		c.M = gen.Metric{Kind: "literal"}
+		return c
+	}
 	if rapid.IntRange(0, 9).Draw(t, "identical-records") == 0 {
 		// keys that differ only in characters a label name cannot hold, keys that repeat, keys that
 		// shadow the record's own labels
